@@ -175,6 +175,23 @@ def run_retro(ctx, focus):
         raise tlc.TLCError("vacuity guard: operations that never returned on any input: %s (%s)" % (never, not_returned))
     bad = validate(ctx, "TraceRetro", traces, decide="Decide", next_="TNext", init="TInit", chunk=3000,
                    constants={"NRows": 1, "Samples": {1}, "MaxParam": 1, "BugSeg": False, "BugNPL": False, "Export": False, "Focus": focus})
+    gens = [t for t in traces if t["op"] == "seg" and len(t["out"]) >= 2]
+    if not bad and gens:
+        from harness.tracecheck import selftest
+
+        def corrupt(t):
+            if focus == "C11":
+                t["out"] = t["out"][1:]
+                return "one experiment removed from a generator's logged output"
+            t["out"][0]["s"], t["out"][0]["id"] = t["out"][0]["s"], t["out"][0]["id"]
+            t["out"][0]["pl"] = t["out"][1]["pl"] if t["out"][1]["s"] != t["out"][0]["s"] else 424242
+            for r in t["out"]:
+                r["pl"] = t["out"][0]["pl"]
+            return "every generated experiment given the same plate label in the log"
+        gg = [t for t in gens if len({r["s"] for r in t["out"] if not r["obs"]}) >= 2] if focus == "C13" else gens
+        if gg:
+            selftest(ctx, "TraceRetro", gg[0], corrupt, decide="Decide", next_="TNext", init="TInit",
+                     constants={"NRows": 1, "Samples": {1}, "MaxParam": 1, "BugSeg": False, "BugNPL": False, "Export": False, "Focus": focus})
     shown = 0
     for i, clause in bad:
         t = traces[i]
